@@ -15,6 +15,7 @@ use crate::{
     scen::pair::{Mode as PairMode, Pair},
     scen::query::QueryScen,
     scen::session::Session,
+    scen::wire::{Decoders, PureMode, Wire},
 };
 
 fn batch<S: Scenario>(s: &S, tier: Tier, seed: u64, quick_runs: u64, thorough_runs: u64, scale: f64) -> BatchOut {
@@ -47,10 +48,17 @@ pub fn run_property(prop: &str, tier: Tier, seed: u64, scale: f64) -> i32 {
             vec![batch(&Crash, tier, seed, 1_500, 20_000, scale)]
         }
         "C07" => vec![batch(&Docs { mode: DocsMode::Cap }, tier, seed, 40_000, 1_000_000, scale)],
+        "C09" => vec![
+            batch(&Wire, tier, seed, 150_000, 4_000_000, scale),
+            batch(&Decoders { mode: PureMode::Codecs }, tier, seed, 40_000, 1_000_000, scale),
+        ],
         "C10" => vec![batch(&Session, tier, seed, 30_000, 800_000, scale)],
         "C12" => vec![batch(&Events, tier, seed, 30_000, 800_000, scale)],
         "C14" => vec![batch(&ActorScen, tier, seed, 30_000, 800_000, scale)],
-        "C15" => vec![batch(&Docs { mode: DocsMode::Policy }, tier, seed, 40_000, 1_000_000, scale)],
+        "C15" => vec![
+            batch(&Docs { mode: DocsMode::Policy }, tier, seed, 40_000, 1_000_000, scale),
+            batch(&Decoders { mode: PureMode::Filters }, tier, seed, 20_000, 500_000, scale),
+        ],
         "C16" => vec![batch(&Docs { mode: DocsMode::Remove }, tier, seed, 30_000, 800_000, scale)],
         "C17" => vec![
             batch(&Docs { mode: DocsMode::Peers }, tier, seed, 40_000, 1_000_000, scale),
@@ -58,7 +66,10 @@ pub fn run_property(prop: &str, tier: Tier, seed: u64, scale: f64) -> i32 {
         ],
         "C18" => vec![batch(&Docs { mode: DocsMode::Migrate }, tier, seed, 30_000, 800_000, scale)],
         "C08" => vec![batch(&Pair { mode: PairMode::Differential }, tier, seed, 15_000, 400_000, scale)],
-        "C13" => vec![batch(&Offer { mode: OfferMode::Heads }, tier, seed, 60_000, 1_500_000, scale)],
+        "C13" => vec![
+            batch(&Offer { mode: OfferMode::Heads }, tier, seed, 60_000, 1_500_000, scale),
+            batch(&Decoders { mode: PureMode::Heads }, tier, seed, 20_000, 500_000, scale),
+        ],
         _ => {
             eprintln!("harness error: unknown property {prop}");
             return 2;
@@ -74,6 +85,10 @@ fn replay_dispatch(prop: &str, scenario: &str, plan: Value) -> Result<(Option<cr
         (_, "offer-heads") => replay_plan(&Offer { mode: OfferMode::Heads }, plan),
         (_, "events") => replay_plan(&Events, plan),
         (_, "forge") => replay_plan(&Forge, plan),
+        (_, "wire") => replay_plan(&Wire, plan),
+        (_, "decoders-pure") => replay_plan(&Decoders { mode: PureMode::Codecs }, plan),
+        (_, "heads-encoding-pure") => replay_plan(&Decoders { mode: PureMode::Heads }, plan),
+        (_, "filters-pure") => replay_plan(&Decoders { mode: PureMode::Filters }, plan),
         (_, "session") => replay_plan(&Session, plan),
         (_, "query") => replay_plan(&QueryScen, plan),
         (_, "actor") => replay_plan(&ActorScen, plan),
@@ -182,6 +197,7 @@ pub fn determinism(prop: Option<&str>, seeds: u64) -> i32 {
     if all || p == "C05" { twice(&QueryScen, seeds, &mut bad); }
     if all || p == "C06" { twice(&Crash, seeds.min(60), &mut bad); }
     if all || p == "C07" { twice(&Docs { mode: DocsMode::Cap }, seeds, &mut bad); }
+    if all || p == "C09" { twice(&Wire, seeds, &mut bad); twice(&Decoders { mode: PureMode::Codecs }, seeds, &mut bad); }
     if all || p == "C10" { twice(&Session, seeds, &mut bad); }
     if all || p == "C12" { twice(&Events, seeds, &mut bad); }
     if all || p == "C14" { twice(&ActorScen, seeds, &mut bad); }
